@@ -16,6 +16,9 @@
 #include <set>
 #include <memory>
 
+#ifdef MUSTACHE_VERIF
+namespace mustache { namespace verif { struct Access; } }
+#endif
 namespace mustache {
 
     class World;
@@ -595,6 +598,9 @@ namespace mustache {
         }
 
         friend Archetype;
+#ifdef MUSTACHE_VERIF
+        friend struct mustache::verif::Access; // verification hook: read-only access for harnesses
+#endif
         void updateLocation(Entity e, ArchetypeIndex archetype, ArchetypeEntityIndex index) noexcept {
             if (e.id().isValid()) {
                 auto& location = locations_[e.id()];
